@@ -21,7 +21,8 @@ CONSTANTS
   Prefix <- MCPrefix
   MaxHavoc = 0
   KeepRec = FALSE
-  NestedTrigs = {}
+  NestedTrigs <- MCTrigs
+  NestedHx = {}
   EvMayHold = FALSE
 INVARIANT NoBad
 INVARIANT Structural
